@@ -9,6 +9,7 @@
 * trailers     : (has_record_number: bool, file_number: int|None, has_checksum: bool)
 * pad          : None, or (modulo, fill): every physical record is followed by filler bytes (fill: an int byte value or a
                  bytes pattern) up to the next multiple of `modulo` of the file position; TIF `next` words count them.
+* eof_markers  : number of TIF end-of-file markers written at the end (2 = closed file, 0 = the bytes before close()).
 * tif          : 0/False/'off' no TIF markers; 1/True/'le' markers as TotalDepth writes them (three little-endian
                  32-bit words type, previous, next); 2/'be' big-endian words ("reversed" in TotalDepth's vocabulary).
 
@@ -38,7 +39,7 @@ def split_payload(record: bytes, max_payload: int):
     return [record[i:i + max_payload] for i in range(0, len(record), max_payload)]
 
 
-def layout(records, pr_max_len, trailers=(False, None, False), tif=0, pad=None):
+def layout(records, pr_max_len, trailers=(False, None, False), tif=0, pad=None, eof_markers=2):
     has_rec, file_num, has_chk = trailers
     mode = TIF_MODES[tif]
     trailer_len = 2 * bool(has_rec) + 2 * (file_num is not None) + 2 * bool(has_chk)
@@ -84,13 +85,13 @@ def layout(records, pr_max_len, trailers=(False, None, False), tif=0, pad=None):
                 out.extend(bytes([fill]) * pad_len if isinstance(fill, int) else bytes(fill[i % len(fill)] for i in range(pad_len)))
             pr_count += 1
     if mode:
-        marker(1, len(out) + 12)
-        marker(1, len(out) + 12)
+        for _ in range(eof_markers):    # 2: closed file; 0: a file still being written (before close())
+            marker(1, len(out) + 12)
     return bytes(out), tells, prs
 
 
-def write_lis(records, pr_max_len, trailers=(False, None, False), tif=0, pad=None) -> bytes:
-    return layout(records, pr_max_len, trailers, tif, pad)[0]
+def write_lis(records, pr_max_len, trailers=(False, None, False), tif=0, pad=None, eof_markers=2) -> bytes:
+    return layout(records, pr_max_len, trailers, tif, pad, eof_markers)[0]
 
 
 def strip_tif_reference(records, pr_max_len, trailers=(False, None, False)) -> bytes:
